@@ -28,6 +28,7 @@ type Gen struct {
 	defs        []string
 	items       []Item
 	nfresh      int
+	rangeCalls  int
 	heapSort    map[string]string // heap array name -> SMT sort of the whole array
 	strLits     map[string]string
 	tags        map[string]int // type tag ids
@@ -355,7 +356,15 @@ func (g *Gen) box(t types.Type, v string) string {
 	g.decl("fun:box$"+k, fmt.Sprintf("(declare-fun box$%s (%s) Int)", k, s))
 	g.decl("fun:unbox$"+k, fmt.Sprintf("(declare-fun unbox$%s (Int) %s)", k, s))
 	key := "box:" + k + ":" + v
-	if !g.boxed[key] {
+	if strings.Contains(v, "q$") {
+		// the boxed term mentions a quantifier-bound variable: a ground fact would leak it; state the
+		// round-trip law for the whole sort instead (once)
+		key = "boxax:" + k
+		if !g.boxed[key] {
+			g.boxed[key] = true
+			g.defs = append(g.defs, fmt.Sprintf("(forall ((bx %s)) (! (= (unbox$%s (box$%s bx)) bx) :pattern ((box$%s bx))))", s, k, k, k))
+		}
+	} else if !g.boxed[key] {
 		g.boxed[key] = true
 		g.defs = append(g.defs, fmt.Sprintf("(= (unbox$%s (box$%s %s)) %s)", k, k, v, v))
 	}
